@@ -493,8 +493,9 @@ Definition fl_pos (f : Z) : Z := (f / 4294967296) mod 65536.
 Definition fl_group (f : Z) : Z := (f / 65536) mod 65536.
 Definition fl_clear (f : Z) : Z := Z.lxor (f mod 65536) 1.      (* Flag.Clear: Flag(uint16(f)) ^ FlagFrag *)
 
-(* a cluster: max, empties, (ID, Job) of data[0] if any, number of non-empty members *)
-Record clus := { c_max : Z; c_e : Z; c_first : option (Z * Z); c_n : Z }.
+(* Session.frags: group id -> cluster {data []*Packet; max, e uint16} (c2/types.go).  cluster.add
+   COUNTS a fragment with an empty body in e and appends only the others to data. *)
+Record clus := { c_max : Z; c_e : Z; c_data : list packet }.
 Definition fstate := list (Z * clus).
 Fixpoint f_lookup (g : Z) (st : fstate) : option clus :=
   match st with [] => None | (k, c) :: r => if k =? g then Some c else f_lookup g r end.
@@ -503,20 +504,48 @@ Definition f_remove (g : Z) (st : fstate) : fstate := filter (fun kc => negb (fs
 Definition with_flags (f : Z) (p : packet) : packet :=
   Build_packet (p_id p) (p_job p) f (p_ntags p) (p_tags p) (p_body p) (p_dev p).
 
-(* c.add(n) then c.done(): Some st' (error-free) or the not-belongs error *)
-Definition clus_add (g : Z) (c : clus) (p : packet) (st : fstate) : res fstate :=
-  let bad := match c_first c with
-             | Some (i, j) => negb ((i =? p_id p) && (j =? p_job p))
-             | None => false end in
+(* Packet.Belongs: both flag words >= FlagFrag, same ID, Job and group *)
+Definition belongs (d0 p : packet) : bool :=
+  (1 <=? p_flags d0) && (1 <=? p_flags p) && (p_id d0 =? p_id p) && (p_job d0 =? p_job p) &&
+  (fl_group (p_flags d0) =? fl_group (p_flags p)).
+
+(* cluster.add *)
+Definition cl_add (c : clus) (p : packet) : res clus :=
+  let bad := match c_data c with d0 :: _ => negb (belongs d0 p) | [] => false end in
   if bad then Err EOther else
   let mx := u16 (fl_len (p_flags p) - 1) in
-  let empty := is_nil (p_body p) in
-  let c' := if empty then Build_clus mx (u16 (c_e c + 1)) (c_first c) (c_n c)
-            else Build_clus mx (c_e c) (match c_first c with None => Some (p_id p, p_job p) | x => x end) (c_n c + 1) in
-  if (c_n c' =? 0) then Ok ((g, c') :: f_remove g st)
-  else if mx <? u16 (u16 (c_n c') + c_e c') then Ok (f_remove g st)     (* complete: delete(s.frags, g); the
-                                                                         merged packet is delivered without error *)
-  else Ok ((g, c') :: f_remove g st).
+  if is_nil (p_body p) then Ok (Build_clus mx (u16 (c_e c + 1)) (c_data c))
+  else Ok (Build_clus mx (c_e c) (c_data c ++ [p])).
+
+(* sort.Sort(c) by Flags.Position() (insertion sort; which of two members with the same position
+   comes first cannot be observed here: all members have the ID and Job of data[0]) *)
+Fixpoint insert_pos (q : packet) (l : list packet) : list packet :=
+  match l with
+  | [] => [q]
+  | x :: r => if fl_pos (p_flags x) <=? fl_pos (p_flags q) then x :: insert_pos q r else q :: l
+  end.
+Definition sort_pos (l : list packet) : list packet := fold_right insert_pos [] l.
+
+(* n.Add(x) for x in data[1:]: an empty x or one with another ID is skipped; the payload is
+   appended and the low 16 flag bits are or-ed in; then n.Flags.Clear() *)
+Definition padd (n x : packet) : packet :=
+  if is_nil (p_body x) || negb (p_id n =? p_id x) then n
+  else Build_packet (p_id n) (p_job n) (Z.lor (p_flags n) (p_flags x mod 65536)) (p_ntags n) (p_tags n)
+                    (p_body n ++ p_body x) (p_dev n).
+Definition merge (n : packet) (tl : list packet) : packet :=
+  let v := fold_left padd tl n in with_flags (fl_clear (p_flags v)) v.
+
+(* cluster.done.  guard = true: the code (`if len(c.data) == 0 { return nil }` first);
+   guard = false: without that line, kept to show what it is there for: a group whose parts are
+   ALL empty reaches `n := c.data[0]` with an empty slice. *)
+Definition cl_done_g (guard : bool) (c : clus) : res (option packet) :=
+  if guard && is_nil (c_data c) then Ok None
+  else if c_max c <? u16 (u16 (len (c_data c)) + c_e c) then
+    let sorted := sort_pos (c_data c) in
+    do n <- idx sorted 0;
+    Ok (Some (merge n (drop 1 sorted)))
+  else Ok None.
+Definition cl_done := cl_done_g true.
 
 Fixpoint recv_b (fuel : nat) (self : list Z) (st : fstate) (p : packet) : A fstate :=
   match fuel with
@@ -535,10 +564,22 @@ Fixpoint recv_b (fuel : nat) (self : list Z) (st : fstate) (p : packet) : A fsta
       else if fl_len fl =? 1 then recv_b f self st (with_flags (fl_clear fl) p)
       else
         let g := fl_group fl in
+        let go (c : clus) :=
+          match cl_add c p with
+          | Ok c' =>
+            match cl_done c' with
+            | Ok (Some v) => recv_b f self (f_remove g st) v         (* delete(s.frags, g); receive(s, l, v) *)
+            | Ok None => ret ((g, c') :: f_remove g st)
+            | Err e => lift (Err e)
+            | Panic => lift Panic
+            end
+          | Err e => lift (Err e)
+          | Panic => lift Panic
+          end in
         match f_lookup g st with
         | None => if 0 <? fl_pos fl then ret st                                        (* write(SvDrop) *)
-                  else lift (clus_add g (Build_clus 0 0 None 0) p st)
-        | Some c => lift (clus_add g c p st)
+                  else go (Build_clus 0 0 [])                                          (* new(cluster) *)
+        | Some c => go c
         end
     else ret st                                                                         (* receiveSingle *)
   end
@@ -552,11 +593,33 @@ with unpack_b (fuel : nat) (self : list Z) (st : fstate) (x : Z) (body : list Z)
     unpack_b f self st' (x - 1) r
   end.
 
+(* a sequence of Packets handed to receive() one after the other on ONE Session (one per
+   connection, or one per Packet of a channel): the state of Session.frags is carried along *)
+Definition recv_fuel (p : packet) : nat := S (S (S (length (p_body p)))).
+Fixpoint recv_packets (self : list Z) (st : fstate) (ps : list packet) : A fstate :=
+  match ps with
+  | [] => ret st
+  | p :: r => al st' <- recv_b (recv_fuel p) self st p; recv_packets self st' r
+  end.
+
+(* the same with the Packets given as bytes: stream forms one behind the other *)
+Fixpoint recv_stream (fuel : nat) (self : list Z) (st : fstate) (s : list Z) : A fstate :=
+  match fuel with
+  | O => lift (Err EFuel)
+  | S f =>
+    if is_nil s then ret st else
+    al '(p, r) <- packet_stream s;
+    al st' <- recv_b (recv_fuel p) self st p;
+    recv_stream f self st' r
+  end.
+Definition receive_seq (self : list Z) (s : list Z) : A (list Z) :=
+  al st <- recv_stream (S (length s)) self [] s; ret [len st].
+
 (* the harness: the input is the stream form of the top packet; then receive(s, l, &p) on the
    Session of device `self` *)
 Definition receive_bytes (self : list Z) (s : list Z) : A (list Z) :=
   al '(p, r) <- packet_stream s;
-  al st <- recv_b (S (S (length s))) self [] p;
+  al st <- recv_b (recv_fuel p) self [] p;
   ret [len st].
 
 (* =========================================================================================
@@ -762,6 +825,7 @@ Inductive case :=
 | C (d : dec) (input : list Z) (out : res (list Z)) (cls : Z)
 | CB64 (shift : Z) (input : list Z) (observed_decode : res (list Z)) (out : res (list Z)) (cls : Z)
 | CRecv (self : list Z) (input : list Z) (out : res (list Z)) (cls : Z)
+| CRecvSeq (self : list Z) (input : list Z) (out : res (list Z)) (cls : Z)
 | CJson (f : sess) (text : list Z).           (* the leaves read from a Session, and what JSON() wrote *)
 
 (* errors: the two EOF flavours are compared exactly; EFuel never matches anything observed *)
@@ -777,6 +841,10 @@ Definition check (c : case) : bool :=
     ((cls =? 2) || res_eqb zlist_eqb (outcome r) out)
   | CRecv self input out cls =>
     let r := receive_bytes self input in
+    alloc_class_ok (alloc r) (len input) cls &&
+    ((cls =? 2) || res_eqb zlist_eqb (outcome r) out)
+  | CRecvSeq self input out cls =>
+    let r := receive_seq self input in
     alloc_class_ok (alloc r) (len input) cls &&
     ((cls =? 2) || res_eqb zlist_eqb (outcome r) out)
   | CJson f text => zlist_eqb (session_json f) text && sess_okb f
